@@ -58,6 +58,7 @@ type funcContract struct {
 	holds         []holdSpec
 	readsUnlocked map[string]string
 	setupOnly     string
+	lockHandoff   string
 	assumeAllCalleeReq bool
 	sweep         bool // synthetic contract of the lock-discipline sweep
 	ghostAt      []ghostUpdate
@@ -434,6 +435,13 @@ func (cs *contractSet) loadFile(path, pkgPath string) error {
 				// the preconditions of every callee under contract are data invariants this function does not
 				// track: assumed at each call and listed in the evidence (the function's own obligations stand)
 				cur.assumeAllCalleeReq = true
+			case "lock_handoff":
+				// lock_handoff <reason>: the function returns with a lock taken or released on purpose (its
+				// callers pair it); no balance obligations, listed in the evidence
+				cur.lockHandoff = rest
+				if rest == "" {
+					return fail(fmt.Errorf("lock_handoff needs a reason"))
+				}
 			case "setup_only":
 				// setup_only <reason>: configuration method, called only before the object is shared with other
 				// goroutines (an assumption about the callers, listed in the evidence): no lock obligations
